@@ -117,6 +117,12 @@ def instrument(repo=REPO, scratch=SCRATCH, quiet=False):
                 % (GUARD, os.path.join(CONTRACTS, "support.rs")))
         f.write('\n%s\n#[path = "%s"]\n#[allow(warnings, clippy::all)]\npub(crate) mod verif_refs;\n'
                 % (GUARD, os.path.join(VERUS_DIR, "refs.rs")))
+        f.write('\n#[cfg(kani)]\n#[path = "%s"]\n#[allow(warnings, clippy::all)]\npub(crate) mod verif_collections;\n'
+                % os.path.join(CONTRACTS, "collections.rs"))
+        prog = os.path.join(CONTRACTS, "prog.rs")
+        if os.path.exists(prog):
+            # real salsa programs written with the public macros: their expansions name `::salsa::`
+            f.write('\n%s\nextern crate self as salsa;\n%s\n#[path = "%s"]\npub(crate) mod verif_prog;\n' % (GUARD, GUARD, prog))
     r = subprocess.run(["rsync", "-rlpgoD", "--checksum", "--delete", "--exclude", "/target",
                         scratch.rstrip("/") + "/", final.rstrip("/") + "/"],
                        stdout=subprocess.PIPE, stderr=subprocess.STDOUT, text=True)
